@@ -185,7 +185,8 @@ func (g *genCtx) genQuery(kind qkind) *query {
 	if kind == kBadClass {
 		q.Qclass = uint16(5 + rng.IntN(200))
 	}
-	q.ID = g.pickID(fmt.Sprintf("%s|%d|%d", q.Name, q.Qtype, q.Qclass))
+	registry.names.LoadOrStore(q.Name, g.spec.label)
+	q.ID = g.pickID(fmt.Sprintf("%s|%d|%d", strings.ToLower(q.Name), q.Qtype, q.Qclass))
 	g.buildPacket(q)
 	switch kind {
 	case kNormal, kShared, kSlow, kDecoded, kLarge:
